@@ -43,6 +43,42 @@ def phase1_multigraph_ob(name, tier, alg, panics):
                        % ("greedy" if alg == 0 else "depth-first", "7 edges" if q else "8 edges; plus every 2nd such list with 5 distinct edges"))
 
 
+def canon(el):
+    """renumber nodes in first-occurrence order (source before target), as EdgeSlice.Populate does"""
+    ren, out = {}, []
+    for a, b in el:
+        for v in (a, b):
+            if v not in ren:
+                ren[v] = len(ren)
+        out.append((ren[a], ren[b]))
+    return out
+
+
+def peel_family():
+    """a directed cycle of length 3 or 4 next to an acyclic part that the greedy breaker peels off first: s sources feeding a hub t, u sinks below t,
+    t linked to the cycle in either direction; the roots listed before or after the cycle (7..11 nodes)"""
+    out = []
+    for L in (3, 4):
+        cyc = [("c%d" % i, "c%d" % ((i + 1) % L)) for i in range(L)]
+        for s in (1, 2, 3, 4):
+            for link in (("c0", "t"), ("t", "c0")):
+                for u in (0, 1, 2):
+                    roots = [("r%d" % i, "t") for i in range(s)] + [("t", "u%d" % i) for i in range(u)]
+                    for el in (roots + [link] + cyc, cyc + [link] + roots, roots[:1] + cyc + [link] + roots[1:]):
+                        c = canon(el)
+                        if c not in out:
+                            out.append(c)
+    return out
+
+
+def phase1_peel_ob(name, alg):
+    return dict(name=name, pkg="internal/phase1", func="Harness_Phase1", consts={"PANICS": 1, "RANDOM": 0, "KNOWN_G1": 0, "ALG": alg},
+                cubes=[phase1_shape_cube(x) for x in peel_family()], maporder="symbolic", enctimeout=200,
+                bounds="real phase1.Alg.Process (%s breaker) on a structured family with 5..11 nodes: a 3- or 4-cycle next to an acyclic part that is peeled off first "
+                       "(1..4 sources feeding a hub, 0..2 sinks below it, hub linked to the cycle in either direction, three edge orders); symbolic: map iteration orders"
+                       % ("greedy" if alg == 0 else "depth-first"))
+
+
 def shapes(maxN, maxM, selfloops=True, connected=False, **kw):
     out = []
     for N in range(1, maxN + 1):
@@ -208,6 +244,8 @@ def C01(tier):
     # cycle breaking on multigraphs beyond M=4 (in-package, the panic "graph is still cyclic" is raised by phase1.Alg.Process)
     obs.append(phase1_multigraph_ob("cycle-breaking-returns-multigraphs-greedy", tier, 0, 1))
     obs.append(phase1_multigraph_ob("cycle-breaking-returns-multigraphs-dfs", tier, 1, 1))
+    obs.append(phase1_peel_ob("cycle-breaking-returns-peeling-greedy", 0))
+    obs.append(phase1_peel_ob("cycle-breaking-returns-peeling-dfs", 1))
     if not q:
         obs.append(layout_ob("layout-returns-multigraphs", "Harness_E_C01", multi_shapes(4, 4, 7), {"P1": [0, 1]},
                              consts={"P2": 0, "P4": 4, "P5": 2, "SZ": 0, "NSFIX": 10, "LSFIX": 20},
@@ -354,6 +392,40 @@ def C08(tier):
     return dict(obligations=obs)
 
 
+def dags_one_order(n, with_long_edge=True):
+    """every connected DAG on exactly n nodes (edges i<j of a topological numbering), ONE edge order per DAG (lexicographic), renumbered canonically
+    (first-occurrence order); with_long_edge: only DAGs in which some edge is a shortcut of a longer directed path (they get helper nodes)"""
+    import itertools
+    pairs = [(i, j) for i in range(n) for j in range(i + 1, n)]
+    out, seen = [], set()
+    for k in range(n - 1, len(pairs) + 1):
+        for sub in itertools.combinations(pairs, k):
+            if len({v for e in sub for v in e}) != n or not is_connected(list(sub), n):
+                continue
+            if with_long_edge:
+                reach = {(a, b) for a, b in sub}
+                ch = True
+                while ch:
+                    ch = False
+                    for (a, b) in list(reach):
+                        for (c, d) in sub:
+                            if b == c and (a, d) not in reach:
+                                reach.add((a, d)); ch = True
+                # an edge (a,b) is long if some c has a->..->c->..->b
+                if not any((a, c) in reach and (c, b) in reach for (a, b) in sub for c in range(n)):
+                    continue
+            ren, el = {}, []
+            for a, b in sub:
+                for v in (a, b):
+                    if v not in ren:
+                        ren[v] = len(ren)
+                el.append((ren[a], ren[b]))
+            t = tuple(el)
+            if t not in seen:
+                seen.add(t); out.append(el)
+    return out
+
+
 def C09(tier):
     q = tier == "quick"
     N, M = nm(q, (4, 3), (5, 4))
@@ -362,6 +434,10 @@ def C09(tier):
     obs = [layout_ob("layout-components", "Harness_E_C09", multi, dims, consts={"P5": 2, "SZ": 2},
                      bounds="all canonical edge lists with >= 2 components (N<=%d, M<=%d; interleaved edge orders, self-looped singletons) x 3 positioners x "
                             "2 breakers x 2 layerers; %s" % (N, M, SYMB))]
+    big = [d + [(5, 6)] for d in dags_one_order(5) if len(d) <= nm(q, 6, 7)]
+    obs.append(layout_ob("layout-components-helper-nodes", "Harness_E_C09", big, {"P4": [4, 1]}, consts={"P1": 0, "P2": 0, "P5": 2, "SZ": 2},
+                         bounds="first component: every connected 5-node DAG with a long edge (helper nodes) and <= %d edges, one edge order per DAG; second component: one edge; "
+                                "x {SinkColoring,VAlign}, default breaker and layerer; %s" % (nm(q, 6, 7), SYMB)))
     return dict(obligations=obs)
 
 
